@@ -3,6 +3,7 @@ import Capella.Lemmas.DeclCE2
 import Capella.Lemmas.DeclOrder2
 import Capella.Lemmas.DeclAttr2
 import Capella.Lemmas.DeclAll2
+import Capella.Lemmas.DeclAll3
 
 /-!
 # C12 — declarative modelling resolves promises independently of declaration order
@@ -495,6 +496,49 @@ theorem declared_le_bound_plus_drop {mm g doc g' ps'} (h : apply mm g doc = .ok 
 /-- `!promise` below `delete:` raises ValueError whatever the state (it is never parked) -/
 theorem delete_promise_raises (st : State) (par : Id) (attr p : Str) :
     stepDel st par attr (.atom (.promise p)) = .error .valueError := rfl
+
+/-! ### an unresolvable promise is parked, and what is parked is never dropped (set, sync, whole instructions) -/
+
+/-- `set: {attr: !promise p}` (or a `!find` with `p` inside) with `p` unbound: the entry is filed under `p` -/
+theorem set_unresolved_is_parked (st : State) (par : Id) (attr : Str) (v : Val) (p : Str)
+    (h : resolveVal st.ps st.g v = .error (.unres p)) :
+    stepSet st par attr (.scalar v) = .ok (st.defer p (.piece par (.setE attr (.scalar v)))) := by
+  simp [stepSet, h]
+
+/-- a sync entry whose `find` holds an unbound `!promise p`: the whole entry is filed under `p` -/
+theorem sync_find_unresolved_is_parked (st : State) (par : Id) (attr : Str) (nid nid2 ty keys pid set ext sync) (p : Str)
+    (h : resolveFind st.ps st.g (st.g.members par attr) ty keys = .error (.unres p)) :
+    stepSync st par attr (.mk nid nid2 ty keys pid set ext sync) =
+      .ok (st.defer p (.piece par (.sync attr (.mk nid nid2 ty keys pid set ext sync)))) := by
+  simp [stepSync, h]
+
+/-- the create branch of a sync entry (nothing found) whose scalar `set` values hold an unbound `!promise p`:
+the whole entry is filed under `p` and nothing is created yet (the repaired behaviour, /repo d590fcb) -/
+theorem sync_create_set_unresolved_is_parked (st : State) (par : Id) (attr : Str) (nid nid2 ty keys pid set ext sync rk)
+    (p : Str) (hf : resolveFind st.ps st.g (st.g.members par attr) ty keys = .ok (none, rk))
+    (h : checkSetScalars st.ps st.g set = some (.unres p)) :
+    stepSync st par attr (.mk nid nid2 ty keys pid set ext sync) =
+      .ok (st.defer p (.piece par (.sync attr (.mk nid nid2 ty keys pid set ext sync)))) := by
+  simp [stepSync, hf, h]
+
+/-- an instruction whose `parent` is an unbound `!promise p` is re-filed whole under `p` -/
+theorem parent_unresolved_is_parked (mm : MM) (st : State) (i : Instr) (p : Str)
+    (h : resolveVal st.ps st.g i.parent = .error (.unres p)) :
+    startAction mm st (.whole i) = .ok (st.defer p (.whole i)) := by
+  simp [startAction, h]
+
+/-- **What is parked is never silently dropped** (every document, every operator): if at some state of the
+loop an entry is filed under `p` and the loop ends without `p` having been bound, the entry is still there and
+`apply` raises `UnfulfilledPromisesError` naming `p`. -/
+theorem parked_entry_raises {mm : MM} {n : Nat} {st sf : State} {p : Str} (hr : run mm n st = some (.ok sf))
+    (hp : ∃ e ∈ st.deferred, e.1 = p) (hn : sf.ps.lookup p = none) :
+    ∃ l, finish sf = .error (.unfulfilled l) ∧ p ∈ l := by
+  obtain ⟨e, he, hpe⟩ := run_keeps_parked n st sf hr hp hn
+  cases hd : sf.deferred with
+  | nil => rw [hd] at he; cases he
+  | cons x t =>
+    refine ⟨(sf.deferred.map (·.1)).eraseDups, by simp [finish, hd], ?_⟩
+    exact List.mem_eraseDups.mpr (List.mem_map.mpr ⟨e, he, hpe⟩)
 
 /-- The statement without the hypothesis on the merge: "success ⇒ every id declared at most once". **False**
 for the code as it is (`duplicate_all_full_fails`). -/
